@@ -1480,8 +1480,19 @@ def c02_structure(units, R):
         from .common import assignment_pairs
         pairs = {(l, r) for (l, r, _a, _via) in assignment_pairs(u, f2)}
         # chained `current_item = head = new_item`
-        news = [d['n'] for d in f2.locals() if 'init' in d and strip_casts(d['init']).get('k') == 'call' and
-                callee_name(strip_casts(d['init'])) == 'cJSON_New_Item']
+        def fresh_nodes(F):
+            out = [d['n'] for d in F.locals() if 'init' in d and strip_casts(d['init']).get('k') == 'call' and
+                   callee_name(strip_casts(d['init'])) == 'cJSON_New_Item']
+            out += [strip_casts(a['l'])['n'] for a in assignments(F) if is_ref(a['l']) and strip_casts(a['r']).get('k') == 'call' and
+                    callee_name(strip_casts(a['r'])) == 'cJSON_New_Item']
+            return out
+        news = fresh_nodes(f2)
+        # the allocation (and the linking) may live in a static helper the container parser calls for each element
+        for (_l, _r, _a, via) in assignment_pairs(u, f2):
+            if via is not None and callee_name(via) in u.functions:
+                for n_ in fresh_nodes(u.functions[callee_name(via)]):
+                    if n_ not in news:
+                        news.append(n_)
         if len(news) != 1:
             raise AnalysisBroken('C02S: %s does not allocate exactly one node per element' % name)
         N = news[0]
